@@ -2,7 +2,7 @@ import TunnoxModel.Driver.Util
 import TunnoxModel.Spec.C11
 /-!
 Line protocol for C11 (see harness/c11/main.go):
-  case: c <cmdType> p <0|1> f <conn#> s <snd> r <rcv> t <tok|-> b <0|1> m <ref> g <int> k <ref> d <ref> [e <v> <keys>] [z <conn#>] [q <fault plan>]
+  case: c <cmdType> p <0|1> f <conn#> s <snd> r <rcv> t <tok|-> b <0|1> m <ref> g <int> k <ref> d <ref> [e <v> <keys>] [z <conn#>] [y <conn#> <rounds>] [q <fault plan>]
         W [br <0|1>] [ne <0|1>] [xn <0|1>] conns <n> (<step>[><step>…][@<node>])*   (step = <N|U|A|P|F><clientID>; histories run in list order, `Model.connsOf`) maps <n> (<listen>:<target>:<s|t>:<a|i>)* codes <n> (<target>:<0|1|activator>)* doms <n> (<owner>)*
   obs:  <run> ~ <run>,  run = ret <0|1> rsp <n|o|f> view <…|-> chg <…|-> dlv <…|-> gone <…|-> [dig <…|->]
         (dig = digests of delivered payloads / stored records; stripped before the comparison with the model)
@@ -72,6 +72,9 @@ def parseCase' : List String → Option Case
     -- optional `z <conn#>`: the handler outlives the RPC wait and resumes while a command of that connection is in flight
     let late := (match rest01 with | "z" :: v :: _ => v.toNat? | _ => none)
     let rest02 := (match rest01 with | "z" :: _ :: r => r | r => r)
+    -- optional `y <conn#> <rounds>`: the command runs concurrently with commands of that connection (a schedule as well)
+    let late := (match rest02 with | "y" :: v :: _ :: _ => v.toNat? | _ => late)
+    let rest02 := (match rest02 with | "y" :: _ :: _ :: r => r | r => r)
     -- optional `q <fault plan>`: which reads of the named mapping's record fail
     let faults ← (match rest02 with | "q" :: v :: _ => v.toNat? | _ => some 0)
     let rest0 ← (match rest02 with | "q" :: _ :: "W" :: r => some r | "W" :: r => some r | _ => none)
